@@ -1,5 +1,6 @@
 import Model.Heap
 import Spec.Val
+import Drivers.C06RS
 import Drivers.Common
 /-! `vm_c06`: line protocol over `Model.Heap` / `Spec.Val`.
 
@@ -17,6 +18,11 @@ import Drivers.Common
     modelled fragment is rendered with a leading `!`.
   rendering: variables joined by a space; array `[k=>v,…]` (k = position, n or k<s>);
   object held by a variable `o<h>{p0;p1}`; object inside an array `o<h>`.
+
+  rs\t<cfg>\t<nv>\t<nr>\t<tokens>   `Model.RefSlot` / `Spec.RefVal` (references to array slots);
+    cfg: counted | tree | sticky | spec
+    stmt := lit x cnt n… | copy x y | store x i n | bind var|param r x i | wr r n | release r
+  → per statement the arrays of all variables, joined by a space; `!` as above.
 -/
 open Model.Heap
 
@@ -246,6 +252,7 @@ def parseCfg (m : String) : Option Cfg :=
 
 def handle (line : String) : String :=
   match line.splitOn "\t" with
+  | ["rs", cfg, nv, nr, toks] => RS.handle cfg nv nr toks
   | [mode, nv, toks] =>
     match nv.toNat?, pOps ((toks.splitOn " ").filter (· ≠ "")) with
     | some nv, some ops =>
